@@ -305,7 +305,11 @@ func (engine *Engine) NewContext() *app.RequestContext {
 //     one request (in hand or next incoming), idleTimeout or ExitWaitTime
 //  4. Exit
 func (engine *Engine) Shutdown(ctx context.Context) (err error) {
-	if atomic.LoadUint32(&engine.status) != statusRunning {
+	// IsRunning also checks that the transport has its listener: between
+	// MarkAsRunning and the creation of the listener there is nothing the
+	// transport could close yet, and the server would go on listening after
+	// a "successful" shutdown.
+	if !engine.IsRunning() {
 		return errStatusNotRunning
 	}
 	if !atomic.CompareAndSwapUint32(&engine.status, statusRunning, statusShutdown) {
